@@ -13,7 +13,10 @@
    theorem is stated under the boolean guard that excludes exactly them, and each has its `_refuted` witness.  The shape
    K1 (hex constant whose leading b/B digits are followed by a decimal digit, 0xb3ba) was one of them; it is repaired in
    the source (Prefix alternative 0[xX](?=[\da-fA-F]) of INT_LITERAL_PATTERN), guard_int no longer excludes it and
-   C11_accepted_hex_b_digits states it positively. *)
+   C11_accepted_hex_b_digits states it positively.  Likewise the two hexadecimal-float shapes (empty fraction or integer part;
+   suffix starting with a hexadecimal letter and continuing) are repaired: guard_float is trivially true now (kept in the
+   statements for stability), C11_accepted_hexfloat_empty_part / _hex_suffix state them positively.  Still recorded: the
+   hexadecimal e/E + suffix + sign shape, universal character names, long \x escapes in character constants. *)
 From NV Require Import Model.Base Model.Diag Model.Lexer Spec.CConst Gen.LexTables Proofs.CConstProofs Proofs.LexTies.
 
 Theorem C11_accept_int_partial : forall w r, In w (int_consts integer_suffixes) -> In r (delims w) ->
@@ -69,14 +72,16 @@ Theorem C11_refuted_hex_e_suffix_sign :
   lex_one_ok (s "CONSTANT") (s "0x1eu") (s "+1") = false /\ lex_one_ok (s "CONSTANT") (s "0x1eu") (s ";") = true.
 Proof. exact refuted_hex_e_suffix. Qed.
 Print Assumptions C11_refuted_hex_e_suffix_sign.
-Theorem C11_refuted_hexfloat_empty_part :
-  lex_one_ok (s "CONSTANT") (s "0x1.p3") (s ";") = false /\ lex_one_ok (s "CONSTANT") (s "0x.8p1") (s ";") = false.
-Proof. exact refuted_hexfloat_empty_part. Qed.
-Print Assumptions C11_refuted_hexfloat_empty_part.
-Theorem C11_refuted_hexfloat_hex_suffix : str_in (s "fi") float_suffixes = true /\
-  lex_one_ok (s "CONSTANT") (s "0x1.8p3fi") (s ";") = false /\ lex_one_ok (s "CONSTANT") (s "1.5fi") (s ";") = true.
-Proof. exact refuted_hexfloat_hex_suffix. Qed.
-Print Assumptions C11_refuted_hexfloat_hex_suffix.
+(* the former findings C11-hexfloat-empty-part / C11-hexfloat-hex-suffix, repaired in the source: positive now *)
+Theorem C11_accepted_hexfloat_empty_part :
+  shape_hexfloat_empty_part (s "0x1.p3") = true /\ shape_hexfloat_empty_part (s "0x.8p1") = true /\
+  lex_one_ok (s "CONSTANT") (s "0x1.p3") (s ";") = true /\ lex_one_ok (s "CONSTANT") (s "0x.8p1") (s ";") = true.
+Proof. exact accepted_hexfloat_empty_part. Qed.
+Print Assumptions C11_accepted_hexfloat_empty_part.
+Theorem C11_accepted_hexfloat_hex_suffix : str_in (s "fi") float_suffixes = true /\ shape_hexfloat_hex_suffix (s "0x1.8p3fi") = true /\
+  lex_one_ok (s "CONSTANT") (s "0x1.8p3fi") (s ";") = true /\ lex_one_ok (s "CONSTANT") (s "1.5fi") (s ";") = true.
+Proof. exact accepted_hexfloat_hex_suffix. Qed.
+Print Assumptions C11_accepted_hexfloat_hex_suffix.
 Theorem C11_refuted_universal_character_name :
   lex_one_ok (s "CHAR_CONST") (qt ++ bsl ++ s "u1234" ++ qt) (s ";") = false /\
   lex_one_ok (s "STRING") (dq ++ bsl ++ s "u1234" ++ dq) (s ";") = false.
@@ -208,21 +213,15 @@ Theorem C11_accept_char_unbounded_partial : forall (uw ud : N -> bool) pre it re
 Proof. exact accept_char. Qed.
 Print Assumptions C11_accept_char_unbounded_partial.
 
-(* hexadecimal floats: integer part and (when there is a dot) fraction non-empty - the complement of the finding
-   C11-hexfloat-empty-part; the remainder of the suffix after its hexadecimal letters is a suffix of the table - implied by
-   the complement of the finding C11-hexfloat-hex-suffix (C11_hexfloat_suffix_guard), and weaker (0x1p3dl is accepted) *)
-Theorem C11_accept_hexfloat_unbounded_partial : forall (uw ud : N -> bool) xc hi frac p sgn d0 ed sfx rest,
-  is_xX xc = true -> forallb is_hex hi = true -> hi <> [] ->
-  (frac = [] \/ exists fp, frac = 46%N :: fp /\ forallb is_hex fp = true /\ fp <> []) ->
-  is_pP p = true -> sign_ok sgn = true -> forallb ascii_digit (d0 :: ed) = true ->
-  str_in sfx float_suffixes = true -> str_in (hexfloat_sfx_rem sfx) float_suffixes = true -> delim rest = true ->
-  lex_one_ok_u uw ud (s "CONSTANT") ((48%N :: xc :: hi ++ frac) ++ (p :: sgn ++ d0 :: ed) ++ sfx) rest.
-Proof. exact accept_hexfloat_partial. Qed.
-Print Assumptions C11_accept_hexfloat_unbounded_partial.
-Theorem C11_hexfloat_suffix_guard : forall sfx, str_in sfx float_suffixes = true -> hexfloat_sfx_bad sfx = false ->
-  str_in (hexfloat_sfx_rem sfx) float_suffixes = true.
-Proof. exact hexfloat_sfx_guard_ok. Qed.
-Print Assumptions C11_hexfloat_suffix_guard.
+(* hexadecimal floats, ALL of them (since the repair of the two hexadecimal-float findings): 0[xX], then H+ [ . H* ] or . H+
+   (hexfloat_digits), a binary exponent with decimal digits, any suffix of the table *)
+Theorem C11_accept_hexfloat_unbounded : forall (uw ud : N -> bool) xc hi frac p sgn ed sfx rest,
+  is_xX xc = true -> hexfloat_digits hi frac ->
+  is_pP p = true -> sign_ok sgn = true -> forallb ascii_digit ed = true -> ed <> [] ->
+  str_in sfx float_suffixes = true -> delim rest = true ->
+  lex_one_ok_u uw ud (s "CONSTANT") ((48%N :: xc :: hi ++ frac) ++ (p :: sgn ++ ed) ++ sfx) rest.
+Proof. exact accept_hexfloat. Qed.
+Print Assumptions C11_accept_hexfloat_unbounded.
 
 (* every float suffix of the source's table: ASCII letters/digits, first letter not e/E *)
 Theorem C11_float_suffixes_ok : forallb fsfx_ok float_suffixes = true.
